@@ -52,6 +52,7 @@ type c19ExtCase struct {
 	Sect    string   `json:"sect"` // "ext"
 	Kind    string   `json:"kind"` // os | rs
 	Opts    []string `json:"opts"`
+	Ifaces  []string `json:"ifaces"`   // rs: optional interfaces the FileCmd handler implements (absent = all)
 	Exts    []string `json:"exts"`     // configured extension list, in order
 	InitHex string   `json:"init_hex"` // body of the INIT frame sent
 	Mode    string   `json:"mode"`     // handshake | serial | pipelined
@@ -66,6 +67,8 @@ type c19V struct {
 type c19Sess struct {
 	kind   string
 	opts   []string
+	ifaces []string    // rs: optional interfaces of the FileCmd handler
+	rec    *c19CallRec // rs: FileCmd methods reached since the last reset
 	ro     bool
 	based  bool // working / start directory configured
 	s      *peers.Srv
@@ -92,8 +95,8 @@ func (se *c19Sess) kindKey() string {
 	return se.kind
 }
 
-func c19Open(kind string, opts []string, scratch string) (*c19Sess, error) {
-	se := &c19Sess{kind: kind, opts: opts, id: 100}
+func c19Open(kind string, opts, ifaces []string, scratch string) (*c19Sess, error) {
+	se := &c19Sess{kind: kind, opts: opts, ifaces: ifaces, id: 100}
 	if kind == "os" {
 		root, err := os.MkdirTemp(scratch, "os")
 		if err != nil {
@@ -143,7 +146,15 @@ func c19Open(kind string, opts []string, scratch string) (*c19Sess, error) {
 			return nil, fmt.Errorf("unknown rs option %q", n)
 		}
 	}
-	se.s = peers.StartRS(sftp.InMemHandler(), o...)
+	for _, n := range ifaces {
+		if !c19Has(c19RSIfaceNames, n) {
+			return nil, fmt.Errorf("unknown handler interface %q", n)
+		}
+	}
+	h := sftp.InMemHandler()
+	se.rec = &c19CallRec{}
+	h.FileCmd = c19WrapCmd(h.FileCmd, ifaces, se.rec)
+	se.s = peers.StartRS(h, o...)
 	return se, nil
 }
 
@@ -457,6 +468,11 @@ func (se *c19Sess) judge(q c19Q, bt c19Built, class, name string, cfg []string, 
 		}
 	case "known":
 		configured := c19Has(cfg, name)
+		if se.kind == "rs" && name == "statvfs@openssh.com" && !c19Has(se.ifaces, "StatVFSFileCmder") {
+			// the handlers cannot serve it (OP_UNSUPPORTED per the model); the property speaks of the os-backed server
+			return out
+		}
+		fallback := se.kind == "rs" && name == "posix-rename@openssh.com" && !c19Has(se.ifaces, "PosixRenameFileCmder")
 		if err == nil && isStatus && code == wire.OpUnsupported {
 			if configured && se.kind == "os" {
 				out = append(out, c19V{Key: "server/advertised-not-served/" + kk, What: "an advertised extension is answered OP_UNSUPPORTED by the os-backed server", Expected: "served", Actual: c19Show(p, err)})
@@ -495,6 +511,13 @@ func (se *c19Sess) judge(q c19Q, bt c19Built, class, name string, cfg []string, 
 				}
 				break
 			}
+			if fallback && bt.dstPre && err == nil && isStatus && code != wire.OK {
+				// plain Rename semantics of the fallback: an existing target is refused, nothing moves
+				if !srcNow || !dstNow {
+					bad(fmt.Sprintf("refused but the tree changed: source present=%v, target present=%v", srcNow, dstNow), nil)
+				}
+				break
+			}
 			if err != nil || !isStatus || code != wire.OK {
 				bad("a supported extension with valid arguments must succeed", "STATUS code 0")
 				break
@@ -523,10 +546,10 @@ func (se *c19Sess) judge(q c19Q, bt c19Built, class, name string, cfg []string, 
 }
 
 // do runs one request serially and judges it; for unserved names it then checks that the session goes on.
-func (se *c19Sess) do(q c19Q, cfg, supported []string) (class string, out []c19V) {
+func (se *c19Sess) do(q c19Q, cfg, supported []string) (class string, out []c19V, obs []c19Ob) {
 	bt := se.build(q)
 	if bt.skip != "" {
-		return "skip", []c19V{{Key: "c19/setup", What: bt.skip}}
+		return "skip", []c19V{{Key: "c19/setup", What: bt.skip}}, nil
 	}
 	var frame []byte
 	var name string
@@ -539,29 +562,37 @@ func (se *c19Sess) do(q c19Q, cfg, supported []string) (class string, out []c19V
 		frame = wire.Req(wire.Extended, id, bt.payload)
 	}
 	if class == "known" && q.Args != "std" && q.Args != "alt" {
-		return "skip", nil // raw bytes that happen to form a complete supported request: no expectation recorded
+		return "skip", nil, nil // raw bytes that happen to form a complete supported request: no expectation recorded
 	}
 	before := se.listing()
+	se.rec.take()
 	p, err := se.s.Call(frame)
+	calls := se.rec.take()
 	if err != nil {
 		se.dead = true
 	} else if bt.frame == nil && p.ID() != id {
 		out = append(out, c19V{Key: "server/extended-reply-misnumbered/" + se.kindKey(), What: "the reply to an extended request carries another id", Expected: id, Actual: p.ID()})
-		return class, out
+		return class, out, nil
 	}
 	out = se.judge(q, bt, class, name, cfg, p, err, before)
+	if class != "malformed" || name != "" {
+		nh := q.NameHex
+		if q.Args == "payload" {
+			nh = lib.Hex([]byte(name))
+		}
+		obs = []c19Ob{{c19ObsKey{se.modelSrv(), se.ro, nh, class != "malformed"}, se.observe(class, name, p, err, len(out) == 0, calls)}}
+	}
 	if class == "unknown" && !se.dead {
 		if act, ok := se.alive(); !ok {
 			out = append(out, c19V{Key: "server/session-ended-after-extended/" + se.kindKey(), What: "the session does not continue after an extended request with an unserved name", Expected: "ATTRS for STAT", Actual: act})
 		}
 	}
-	return class, out
+	return class, out, obs
 }
 
 // pipelined writes all requests (unserved names and statvfs only) and a final STAT in one piece and
 // then reads the replies, which must arrive in request order.
-func (se *c19Sess) pipelined(qs []c19Q, cfg, supported []string) []c19V {
-	var out []c19V
+func (se *c19Sess) pipelined(qs []c19Q, cfg, supported []string) (out []c19V, obs []c19Ob) {
 	var stream []byte
 	type exp struct {
 		id    uint32
@@ -591,23 +622,41 @@ func (se *c19Sess) pipelined(qs []c19Q, cfg, supported []string) []c19V {
 		sp = se.root
 	}
 	stream = append(stream, wire.Req(wire.Stat, statID, wire.B{}.Str(sp))...)
+	se.rec.take()
 	if err := se.s.Send(stream); err != nil {
 		se.dead = true
-		return []c19V{{Key: "server/session-ended-after-extended/" + se.kindKey(), What: "the server stopped reading a pipelined batch of extended requests", Actual: err.Error()}}
+		return []c19V{{Key: "server/session-ended-after-extended/" + se.kindKey(), What: "the server stopped reading a pipelined batch of extended requests", Actual: err.Error()}}, nil
 	}
+	type got struct {
+		e     exp
+		p     wire.Pkt
+		clean bool
+	}
+	var gots []got
 	for _, e := range exps {
 		p, err := se.s.Recv(20 * time.Second)
 		if err != nil {
 			se.dead = true
 			out = append(out, c19V{Key: "server/session-ended-after-extended/" + se.kindKey(), What: "a pipelined extended request got no reply", Actual: c19Show(p, err)})
-			return out
+			return out, nil
 		}
 		if p.ID() != e.id {
 			out = append(out, c19V{Key: "server/extended-reply-misnumbered/" + se.kindKey(), What: "replies to pipelined extended requests are not in request order", Expected: e.id, Actual: p.ID()})
-			return out
+			return out, nil
 		}
 		e.bt.dst = "" // existence is checked in the serial runs only
-		out = append(out, se.judge(e.q, e.bt, e.class, e.name, cfg, p, nil, "")...)
+		vs := se.judge(e.q, e.bt, e.class, e.name, cfg, p, nil, "")
+		out = append(out, vs...)
+		gots = append(gots, got{e, p, len(vs) == 0})
+	}
+	// the batch holds at most one supported request (statvfs): every handler call seen belongs to it
+	calls := se.rec.take()
+	for _, g := range gots {
+		var cl []string
+		if g.e.class == "known" {
+			cl = calls
+		}
+		obs = append(obs, c19Ob{c19ObsKey{se.modelSrv(), se.ro, g.e.q.NameHex, true}, se.observe(g.e.class, g.e.name, g.p, nil, g.clean, cl)})
 	}
 	p, err := se.s.Recv(20 * time.Second)
 	if err != nil || p.ID() != statID || p.Typ != wire.Attrs {
@@ -616,7 +665,7 @@ func (se *c19Sess) pipelined(qs []c19Q, cfg, supported []string) []c19V {
 		}
 		out = append(out, c19V{Key: "server/session-ended-after-extended/" + se.kindKey(), What: "the session does not continue after a pipelined batch of extended requests", Expected: "ATTRS for STAT", Actual: c19Show(p, err)})
 	}
-	return out
+	return out, obs
 }
 
 // ---------- generators ----------
@@ -748,30 +797,33 @@ func c19Inits(thorough bool) [][]byte {
 // ---------- driver ----------
 
 type c19Variant struct {
-	kind string
-	opts []string
+	kind   string
+	opts   []string
+	ifaces []string
+	oi, fi int // index of the option subset / of the interface subset
 }
 
 func c19Variants() []c19Variant {
 	var out []c19Variant
-	for _, o := range c19Subsets(c19OSOptNames) {
-		out = append(out, c19Variant{"os", o})
+	for oi, o := range c19Subsets(c19OSOptNames) {
+		out = append(out, c19Variant{kind: "os", opts: o, oi: oi})
 	}
-	for _, o := range c19Subsets(c19RSOptNames) {
-		out = append(out, c19Variant{"rs", o})
+	for oi, o := range c19Subsets(c19RSOptNames) {
+		for fi, f := range c19Subsets(c19RSIfaceNames) {
+			out = append(out, c19Variant{kind: "rs", opts: o, ifaces: f, oi: oi, fi: fi})
+		}
 	}
 	return out
 }
 
-// c19Rec is the part of lib.Result the server cases write to; c19Sink buffers it so that the variants of
-// one configuration can run side by side and still be reported in a fixed order.
-type c19Rec interface {
-	Case(canonical string, nontrivial bool)
-	Hist(k string)
-	Fail(f lib.Failure)
+// c19Sink buffers what a session writes to lib.Result, so that the variants of one configuration can run side
+// by side and still be reported in a fixed order, and collects the observations to compare with the model.
+type c19Sink struct {
+	ops []func(r *lib.Result)
+	obs map[c19ObsKey]map[string]c19ExtCase // model question -> observed answer -> first case showing it
+	n   map[string]int                      // observations per observed class (not de-duplicated)
+	nx  int                                 // requests the model op cannot be asked about (no decodable name)
 }
-
-type c19Sink struct{ ops []func(r *lib.Result) }
 
 func (s *c19Sink) Case(t string, nt bool) {
 	s.ops = append(s.ops, func(r *lib.Result) { r.Case(t, nt) })
@@ -779,7 +831,7 @@ func (s *c19Sink) Case(t string, nt bool) {
 func (s *c19Sink) Hist(k string)      { s.ops = append(s.ops, func(r *lib.Result) { r.Hist(k) }) }
 func (s *c19Sink) Fail(f lib.Failure) { s.ops = append(s.ops, func(r *lib.Result) { r.Fail(f) }) }
 
-func c19Report(r c19Rec, in c19ExtCase, vs []c19V) {
+func c19Report(r *c19Sink, in c19ExtCase, vs []c19V) {
 	for _, v := range vs {
 		kind := "oracle"
 		if v.Key == "c19/setup" {
@@ -790,9 +842,9 @@ func c19Report(r c19Rec, in c19ExtCase, vs []c19V) {
 }
 
 // c19Handshake opens a variant, shakes hands and checks advertised == configured.
-func c19Handshake(r c19Rec, v c19Variant, cfg []string, data map[string]string, initBody []byte, scratch string, prep bool) (*c19Sess, c19ExtCase, bool) {
-	in := c19ExtCase{Sect: "ext", Kind: v.kind, Opts: v.opts, Exts: cfg, InitHex: lib.Hex(initBody), Mode: "handshake"}
-	se, err := c19Open(v.kind, v.opts, scratch)
+func c19Handshake(r *c19Sink, v c19Variant, cfg []string, data map[string]string, initBody []byte, scratch string, prep bool) (*c19Sess, c19ExtCase, bool) {
+	in := c19ExtCase{Sect: "ext", Kind: v.kind, Opts: v.opts, Ifaces: v.ifaces, Exts: cfg, InitHex: lib.Hex(initBody), Mode: "handshake"}
+	se, err := c19Open(v.kind, v.opts, v.ifaces, scratch)
 	if err != nil {
 		r.Fail(lib.Failure{Kind: "tie", Key: "c19/start-server", What: err.Error(), Input: in})
 		return nil, in, false
@@ -850,13 +902,14 @@ func c19Server(c *lib.Ctx, scratch string) {
 	configs = append(configs, []string{names[0], names[0]}, []string{names[len(names)-1], names[0], names[len(names)-1]})
 
 	variants := c19Variants()
+	agg := &c19Sink{}
 	unknown := c19UnknownNames(names, thorough)
 	malformed := c19Malformed(names)
 	inits := c19Inits(thorough)
 	argKinds := []string{"none", "paths", "path", "handle", "raw", "cutstr"}
 	nRandom := 6
 	if thorough {
-		nRandom = 150
+		nRandom = 400
 	}
 	hexName := func(n string) string { return lib.Hex([]byte(n)) }
 	rawBytesOf := func(rnd *rand.Rand) string {
@@ -864,7 +917,7 @@ func c19Server(c *lib.Ctx, scratch string) {
 		rnd.Read(b)
 		return lib.Hex(b)
 	}
-	workers := 4
+	workers := 8
 
 	for ci, cfg := range configs {
 		if err := sftp.SetSFTPExtensions(cfg...); err != nil {
@@ -887,15 +940,18 @@ func c19Server(c *lib.Ctx, scratch string) {
 		var wg sync.WaitGroup
 		for vi, v := range variants {
 			sinks[vi] = &c19Sink{}
+			if !thorough && v.kind == "rs" && v.fi != (ci+v.oi)%(1<<len(c19RSIfaceNames)) {
+				continue // quick: one handler (interface subset) per request-server option set, rotating with the configuration
+			}
 			wg.Add(1)
-			go func(vi int, v c19Variant, r c19Rec, rnd *rand.Rand) {
+			go func(vi int, v c19Variant, r *c19Sink, rnd *rand.Rand) {
 				defer wg.Done()
 				sem <- struct{}{}
 				defer func() { <-sem }()
 				rawBytes := func() string { return rawBytesOf(rnd) }
 				initBody := inits[(ci+vi)%len(inits)]
 				se, in, ok := c19Handshake(r, v, cfg, data, initBody, scratch, true)
-				r.Case(fmt.Sprintf("handshake %s %v cfg=%v init=%x", v.kind, v.opts, cfg, initBody), true)
+				r.Case(fmt.Sprintf("handshake %s %v %v cfg=%v init=%x", v.kind, v.opts, v.ifaces, cfg, initBody), true)
 				r.Hist("server-handshake-" + v.kind)
 				if !ok {
 					return
@@ -940,10 +996,13 @@ func c19Server(c *lib.Ctx, scratch string) {
 							break
 						}
 					}
-					class, vs := se.do(q, cfg, names)
+					class, vs, obs := se.do(q, cfg, names)
 					one := in
 					one.Q = []c19Q{q}
-					r.Case(fmt.Sprintf("ext %s %v cfg=%v %v", v.kind, v.opts, cfg, q), class != "known")
+					for _, o := range obs {
+						r.Obs(o.Key, o.Got, one)
+					}
+					r.Case(fmt.Sprintf("ext %s %v %v cfg=%v %v", v.kind, v.opts, v.ifaces, cfg, q), class != "known")
 					r.Hist("server-extended-" + v.kind + "-" + class)
 					if se.ro {
 						r.Hist("server-extended-readonly-" + class)
@@ -981,9 +1040,13 @@ func c19Server(c *lib.Ctx, scratch string) {
 					one := in
 					one.Mode = "pipelined"
 					one.Q = batch
-					r.Case(fmt.Sprintf("pipelined %s %v cfg=%v %v", v.kind, v.opts, cfg, batch), true)
+					r.Case(fmt.Sprintf("pipelined %s %v %v cfg=%v %v", v.kind, v.opts, v.ifaces, cfg, batch), true)
 					r.Hist("server-extended-" + v.kind + "-pipelined-batch")
-					c19Report(r, one, se.pipelined(batch, cfg, names))
+					vs, obs := se.pipelined(batch, cfg, names)
+					for _, o := range obs {
+						r.Obs(o.Key, o.Got, one)
+					}
+					c19Report(r, one, vs)
 				}
 				if !se.dead {
 					if act, ok := se.alive(); !ok {
@@ -1004,8 +1067,14 @@ func c19Server(c *lib.Ctx, scratch string) {
 					}
 					in.Mode = "serial"
 					in.Q = []c19Q{q}
-					class, vs := se.do(q, cfg, names)
-					r.Case(fmt.Sprintf("ext %s %v cfg=%v %v", v.kind, v.opts, cfg, q), true)
+					class, vs, obs := se.do(q, cfg, names)
+					for _, o := range obs {
+						r.Obs(o.Key, o.Got, in)
+					}
+					if class == "malformed" && len(obs) == 0 {
+						r.nx++
+					}
+					r.Case(fmt.Sprintf("ext %s %v %v cfg=%v %v", v.kind, v.opts, v.ifaces, cfg, q), true)
 					r.Hist("server-extended-" + v.kind + "-" + class)
 					if se.ro {
 						r.Hist("server-extended-readonly-" + class)
@@ -1020,8 +1089,11 @@ func c19Server(c *lib.Ctx, scratch string) {
 			for _, op := range sk.ops {
 				op(r)
 			}
+			agg.merge(sk)
 		}
 	}
+
+	c19CompareModel(c, agg)
 
 	// invalid configuration requests change nothing, whatever the list was before
 	invalid := [][]string{{"nope@example.com"}, {names[0], "nope@example.com"}, {"nope@example.com", names[0]}, {""}, {names[0], names[0], "x"},
@@ -1045,7 +1117,13 @@ func c19Server(c *lib.Ctx, scratch string) {
 
 // c19ReplayExt re-runs one recorded server-side case in a fresh scratch tree.
 func c19ReplayExt(c *lib.Ctx, in c19ExtCase, scratch string) {
-	r := c.R
+	r := &c19Sink{}
+	defer func() {
+		for _, op := range r.ops {
+			op(c.R)
+		}
+		c19CompareModel(c, r)
+	}()
 	supported := sftp.VerifSupportedExtensions()
 	var names []string
 	data := map[string]string{}
@@ -1065,7 +1143,10 @@ func c19ReplayExt(c *lib.Ctx, in c19ExtCase, scratch string) {
 	if len(initBody) < 4 {
 		initBody = wire.B{}.U32(3)
 	}
-	se, base, ok := c19Handshake(r, c19Variant{in.Kind, in.Opts}, in.Exts, data, initBody, scratch, true)
+	if in.Kind == "rs" && in.Ifaces == nil {
+		in.Ifaces = c19RSIfaceNames // replays written before the handler dimension existed: the example handler has both
+	}
+	se, base, ok := c19Handshake(r, c19Variant{kind: in.Kind, opts: in.Opts, ifaces: in.Ifaces}, in.Exts, data, initBody, scratch, true)
 	r.Case(fmt.Sprintf("replay %v", in), true)
 	if !ok {
 		return
@@ -1075,13 +1156,20 @@ func c19ReplayExt(c *lib.Ctx, in c19ExtCase, scratch string) {
 	base.Q = in.Q
 	switch in.Mode {
 	case "pipelined":
-		c19Report(r, base, se.pipelined(in.Q, in.Exts, names))
+		vs, obs := se.pipelined(in.Q, in.Exts, names)
+		for _, o := range obs {
+			r.Obs(o.Key, o.Got, base)
+		}
+		c19Report(r, base, vs)
 	case "serial":
 		for _, q := range in.Q {
 			if se.dead {
 				break
 			}
-			_, vs := se.do(q, in.Exts, names)
+			_, vs, obs := se.do(q, in.Exts, names)
+			for _, o := range obs {
+				r.Obs(o.Key, o.Got, base)
+			}
 			c19Report(r, base, vs)
 		}
 		if !se.dead && len(in.Q) == 0 {
